@@ -322,6 +322,15 @@ def monitor_trace(t, P):
             elif e[0] == 8:
                 if e[3] == 2 and not d['closed']:
                     fail('C12', i, 'add of object %d refused with Closed on an open pool' % e[1])
+                # add() waits while the pool is full and is refused only by a closed pool; try_add() is
+                # refused by a full pool (Timeout) or a closed one
+                opl = ops.get(e[2])
+                if opl is not None and opl[2] == 1:
+                    allowed = (2,) if opl[4] == 1 else (1, 2)
+                    if e[3] not in allowed:
+                        fail('C05', i, '%s of object %d handed the object back with error code %d (1 Timeout, 2 Closed, '
+                                       '3 NoRuntimeSpecified): %s' % ('add()' if opl[4] == 1 else 'try_add()', e[1], e[3],
+                                       'add() waits for a slot, only a closed pool refuses' if opl[4] == 1 else 'only Timeout (full) or Closed'))
         # ---- identity: one place at a time
         places = d['queue'] + d['held'] + d['loose']
         if len(set(places)) != len(places):
